@@ -311,6 +311,22 @@ def build_c18(rng, tier):
             ops.append([rng.choice(GETTERS)])
     if not any(o[0] in GETTERS for o in ops):
         ops.append([rng.choice(GETTERS)])
+    if rng.random() < 0.25:
+        # another Solver object works on another instance in between
+        inst2 = instances.gen_instance(rng, {'shape': 'small'},
+                                       thorough=False)
+        if rng.random() < 0.2:
+            opts2 = {'criteria': [], 'pc': rng.random() < 0.4,
+                     'stab': False, 'bf': True}
+        else:
+            opts2 = gen_opts(rng, inst2)
+        intruder = ['intruder', {
+            'inst': inst2, 'na': inst2['na'], 'twopl': inst2['twopl'],
+            'opts': opts2,
+            'ops': [['solve', {}], [rng.choice(GETTERS)]],
+            'backend': {'policy': 'uniform',
+                        'choice_seed': rng.randrange(2 ** 31)}}]
+        ops.insert(rng.randint(1, len(ops)), intruder)
     return lp_base(rng, inst, opts, ops=ops, policy='uniform')
 
 
@@ -486,10 +502,16 @@ def gen_params(rng, mp=None, small=False, big_lists=False, twopl=None):
 
 
 def gen_base(rng, params, sessions=None, spy_ties=False):
-    return {'family': 'gen', 'params': params,
-            'rng': [rng.randrange(2 ** 31), rng.randrange(2 ** 31)],
-            'sessions': sessions or [], 'spy_ties': spy_ties,
-            'clock_seed': rng.randrange(2 ** 31)}
+    sc = {'family': 'gen', 'params': params,
+          'rng': [rng.randrange(2 ** 31), rng.randrange(2 ** 31)],
+          'sessions': sessions or [], 'spy_ties': spy_ties,
+          'clock_seed': rng.randrange(2 ** 31)}
+    x = rng.random()
+    if x < 0.15:
+        sc['out_rel'] = 'deep/er/out'      # nested output directory
+    elif x < 0.30:
+        sc['precreate_out'] = True         # output directory exists already
+    return sc
 
 
 def build_c08(rng, tier):
